@@ -1,5 +1,6 @@
 import RainModel.Lemmas.LoopWeak
 import RainModel.Lemmas.LoopPeers
+import RainModel.Lemmas.LoopHaves
 /-!
 C01 — download integrity, loop level (M-LOOP).  For every state, every event with arbitrary parameters,
 and every (admissible) choice of the implementation's picker:
@@ -81,6 +82,24 @@ theorem bad_job_writes_nothing_and_bans (m : M) (w : WriteJob) (hg : w.good = fa
 theorem banned_not_accepted (m : M) (k : Nat) (ip : String) (fast ext badHash dupId : Bool)
     (hb : ip ∈ m.1.banned) : acceptPeer m k ip fast ext badHash dupId = (m, "refused-closed") :=
   Rain.Loop.banned_not_accepted m k ip fast ext badHash dupId hb
+
+/-- **reported_only_verified.** The two places where the loop announces pieces — the `have`s after a
+completed write and the `have`s after a verification — only name pieces whose verified bytes are on disk
+at the end of the handler; and the first message to a new peer is the client's own bitfield (`haveall` only
+if every bit is set), which by `bits_sound` names only such pieces.  `haveMsg i` is the text `have:i` the
+model emits; `QueueOK`: only messages that need the metadata are ever queued (preserved by the handlers,
+`processQueued_no_panic`).  (Not proved at the level of a whole `step`: that needs the same string
+bookkeeping for every other message the loop sends; none of them starts with `have:`.) -/
+theorem reported_only_verified :
+    (∀ (m : M) (w : WriteJob), Sound0 m.1 → ∀ o ∈ (writerRun m w).2,
+        o ∈ m.2 ∨ ∀ i, o.msg = haveMsg i → (writerRun m w).1.diskOKi i = true) ∧
+    (∀ m : M, QueueOK m.1 → ∀ o ∈ (handleVerificationDone m).2,
+        o ∈ m.2 ∨ ∀ i, o.msg = haveMsg i → (handleVerificationDone m).1.diskOKi i = true) ∧
+    (∀ (s : St) (p : Peer) (b : List Bool), s.bf = some b →
+        firstMessages s p = (if p.fast && allTrue b && !b.isEmpty then ["haveall"]
+          else if p.fast && !(b.any id) then ["havenone"] else ["bitfield:" ++ bitsHex b]) ++
+          (if p.ext then ["exths"] else [])) :=
+  ⟨writerRun_haves, handleVerificationDone_haves, firstMessages_bitfield⟩
 
 /-! Non-vacuity: a one-piece torrent, an honest peer, the piece is written and the bit is set. -/
 section Example
